@@ -129,7 +129,8 @@ def md5_value(draw, salt_len=None):
     digest = "".join(draw(st.lists(st.sampled_from(CRYPT64), min_size=22, max_size=22)))
     if draw(st.integers(0, 7)) == 0:
         # still of the $1$ class for netconan ($1$<non-blank>$<non-blank>): a further '$' inside the body
-        k = draw(st.integers(1, 20))
+        # (not right after the first character: '$1$ab$9$...' would contain a second hash-shaped token)
+        k = draw(st.integers(2, 20))
         digest = digest[:k] + "$" + digest[k + 1 :]
     return "$1$" + salt + "$" + digest
 
